@@ -165,7 +165,10 @@ fn props_case(ctx: &Ctx, st: &Setup, r: &mut Rng, nsteps: usize) {
                 let fetched_it = accessed.iter().any(|(a, f)| *a == pc && f & 1 != 0);
                 if fetched_it && in_user(pc) && !st.real {
                     let only_fetch = accessed.iter().all(|(a, _)| *a == pc);
-                    if out != Outcome::Err(2) || !only_fetch {
+                    // (in strict mode a not fully initialised instruction word stops the step at the fetch
+                    // with StrictPCCurrUninit: nothing was decoded, so no RTI was attempted)
+                    let refused = out == Outcome::Err(2) || (st.strict && out == Outcome::Err(12));
+                    if !refused || !only_fetch {
                         ctx.fail("C09", "rti_in_user_mode", format!("step {k}: RTI at pc={pc:#06x} in user mode gave {out:?} and touched {accessed:?} (expected PrivilegeViolation and only the fetch)"), replay_of(st, &mut build(st), &envs));
                     }
                 }
@@ -185,8 +188,14 @@ fn props_case(ctx: &Ctx, st: &Setup, r: &mut Rng, nsteps: usize) {
                 }
             } else {
                 // not counted: interrupt entry / real-trap exception entry (+1) or a virtual HALT (0)
-                let virtual_halt = !st.real && matches!(fetched, Some(SimInstr::TRAP(v)) if v.get() == 0x25) && m.sim.pc == pc;
-                if virtual_halt { depth0 } else { depth0 + 1 }
+                // (the fetch of the HALT is observed: an interrupt taken at this boundary, whose handler happens to
+                // start at this very address, reads nothing at the PC)
+                let fetch_seen = accessed.iter().any(|(a, f)| *a == pc && f & 1 != 0);
+                let virtual_halt = !st.real && matches!(fetched, Some(SimInstr::TRAP(v)) if v.get() == 0x25) && m.sim.pc == pc && fetch_seen;
+                // at a PC in the I/O page the fetched word is whatever the device answers (not known here): the
+                // step may have been a virtual HALT (PC back on it, nothing pushed); judged by the model instead
+                let maybe_halt_from_device = !st.real && fetched.is_none() && pc >= 0xFE00 && m.sim.pc == pc;
+                if virtual_halt || (maybe_halt_from_device && depth1 == depth0) { depth0 } else { depth0 + 1 }
             };
             if depth1 != expect {
                 ctx.fail("C27", "depth_mismatch", format!("step {k} at pc={pc:#06x} ({fetched:?}, executed={executed}): depth {depth0} -> {depth1}, expected {expect}"), replay_of(st, &mut build(st), &envs));
